@@ -15,6 +15,7 @@ package impl
 
 import (
 	"encoding/hex"
+	"encoding/json"
 	"fmt"
 	"strconv"
 	"strings"
@@ -304,6 +305,17 @@ func opArgMapGo(a []string) string {
 	if idx >= 0 && idx < len(doc.Operations) {
 		executed = doc.Operations[idx]
 	}
+	// one parsed document serves many requests with different variables: the map computed for a
+	// site must not depend on the variables an earlier call on the same node was given
+	other := perturbVars(vars)
+	for k, st := range collectSites(doc, executed) {
+		first := argMapObs(st.call, vars)
+		argMapObs(st.call, other)
+		argMapObs(st.call, map[string]interface{}{})
+		if again := argMapObs(st.call, vars); again != first {
+			return "HISTORY " + strconv.Itoa(k) + " " + HexW([]byte(first)) + " " + HexW([]byte(again))
+		}
+	}
 	for _, st := range collectSites(doc, executed) {
 		var opDefs ast.VariableDefinitionList = ast.VariableDefinitionList{}
 		if idx >= 0 && idx < len(doc.Operations) && doc.Operations[idx].VariableDefinitions != nil {
@@ -443,3 +455,44 @@ func init() {
 }
 
 var _ = hex.EncodeToString
+
+// perturbVars: the same variables with every leaf value changed (kind kept).
+func perturbVars(vars map[string]interface{}) map[string]interface{} {
+	var p func(v interface{}) interface{}
+	p = func(v interface{}) interface{} {
+		switch x := v.(type) {
+		case nil:
+			return nil
+		case bool:
+			return !x
+		case int:
+			return x + 1
+		case int64:
+			return x + 1
+		case float64:
+			return x + 1
+		case string:
+			return x + "x"
+		case json.Number:
+			return json.Number(string(x) + "1")
+		case []interface{}:
+			out := make([]interface{}, len(x))
+			for i := range x {
+				out[i] = p(x[i])
+			}
+			return out
+		case map[string]interface{}:
+			out := make(map[string]interface{}, len(x))
+			for k, e := range x {
+				out[k] = p(e)
+			}
+			return out
+		}
+		return v
+	}
+	out := make(map[string]interface{}, len(vars))
+	for k, v := range vars {
+		out[k] = p(v)
+	}
+	return out
+}
